@@ -25,6 +25,10 @@ class DeFactoCookiePolicy(DefaultCookiePolicy):
     '''
     def __init__(self, *args, **kwargs):
         self.cookie_jar = kwargs.pop('cookie_jar')
+        # A cookie set without a Domain attribute is host-only (RFC 6265
+        # section 5.4): never return it to subdomains of the setting host.
+        kwargs.setdefault('strict_ns_domain',
+                          DefaultCookiePolicy.DomainStrictNonDomain)
         DefaultCookiePolicy.__init__(self, *args, **kwargs)
 
     def set_ok(self, cookie, request):
